@@ -3,7 +3,7 @@
    below are what that oracle and the implementation's reverse tracking rest on. *)
 From Coq Require Import List Bool String ZArith NArith.
 Import ListNotations.
-Require Pauli Span Tab Flow Adj.
+Require Pauli Span Tab Flow Adj AdjGen TableAdj.
 Require Import Stab Spec SpecProofs GF2 Act Gen_GateTable Gen_RevTrack GenProofs_RevTrack.
 
 (* flows of a Clifford map are closed under products, signs included: products of generators are flows (any n) *)
@@ -41,5 +41,11 @@ Proof. exact Span.spec_measure_group_char. Qed.
 (* sign forms are affine, so "the flow's form is identically the constant" is decided by mask = 0 *)
 Theorem C14_forms_are_affine : forall m k a b, eval_form m k (fxor a b) = xorb (eval_form m k a) (eval_form m k b).
 Proof. exact eval_form_fxor. Qed.
-Print Assumptions C14_flows_closed_under_product. Print Assumptions C14_oracle_measurement_update.
+(* ... and for the WHOLE gate set: every unitary of the generated gate table (backward action = table action of the inverse gate,
+   which is what the translated undo routines are proved to be), single-qubit Pauli measurements and resets, any circuit, any n *)
+Theorem C14_adjoint_all_gates :
+  forall n (c : list TableAdj.tgop), Forall (TableAdj.tok n) c -> forall (D : AdjGen.det) (F : AdjGen.st),
+  AdjGen.parity_at D 0 (AdjGen.frun (map TableAdj.compile c) F) = AdjGen.pair_upto n (AdjGen.back (map TableAdj.compile c) D) F.
+Proof. exact TableAdj.adjoint_table_circuits. Qed.
+Print Assumptions C14_adjoint_all_gates. Print Assumptions C14_flows_closed_under_product. Print Assumptions C14_oracle_measurement_update.
 Print Assumptions C14_reverse_tracker_routines_match_inverse_table.
